@@ -6,12 +6,14 @@ VERIF = os.path.dirname(os.path.dirname(os.path.abspath(__file__)))
 REPO = os.environ.get('VERIF_REPO', '/repo')
 WORK = os.path.join(VERIF, '.work')
 COQ = os.path.join(VERIF, 'coq')
-RUN = os.path.join(COQ, 'Run')
-BIN = os.path.join(WORK, 'bin')
+_TAG = '' if REPO == '/repo' else '_' + hashlib.md5(REPO.encode()).hexdigest()[:8]
+RUN = os.path.join(COQ, 'Run' + _TAG)
+BIN = os.path.join(WORK, 'bin' + _TAG)
 EVID = os.path.join(VERIF, 'evidence')
 REPLAYS = os.path.join(VERIF, 'replays')
 GOENV = dict(os.environ, GOFLAGS='-mod=mod', GOPROXY='off', GOSUMDB='off', GOTOOLCHAIN='local',
              GOARCH='amd64', GOAMD64='v1')
+DRIFT = 0
 WORKERS = int(os.environ.get('VERIF_WORKERS', '6'))
 COQ_WARN = ['-w', '-notation-overridden,-deprecated-hint-without-locality,-deprecated-syntactic-definition,-inexact-float']
 
@@ -219,6 +221,12 @@ def run_cases(tag, judge, case_terms, shard=120, extra_imports='', timeout=900):
             verdicts.extend([[99]] * len(sh))
         else:
             verdicts.extend(vs)
+    # code 20 = agreement up to last-bit drift of floats (all discrete observables equal): counted, not an alarm
+    global DRIFT
+    for v in verdicts:
+        if v and v[0] == 20:
+            v[0] = 0
+            DRIFT += 1
     return verdicts, logs
 
 
